@@ -184,3 +184,39 @@ def compile_terms(terms, leaves, tables=None):
     ns = {}
     exec(src, ns)
     return ns["_f"]
+
+
+def to_python(t, names):
+    """Python source of a term over 64-bit values (leaves named by `names`): for evaluating one fact over a large value set"""
+    if t in names:
+        return names[t]
+    k = t[0]
+    if k == "c":
+        return str(t[1])
+    if k == "cast":
+        v = to_python(t[3], names)
+        if t[1] == "trunc":
+            return "(%s & %d)" % (v, mask(bits_of(t[2])))
+        if t[1] == "zext":
+            return v
+        raise AnalysisBroken("termeval.to_python: cast %s" % t[1])
+    if k == "op":
+        a, b = to_python(t[3], names), to_python(t[4], names)
+        m = mask(bits_of(t[2]))
+        o = {"add": "+", "sub": "-", "mul": "*", "and": "&", "or": "|", "xor": "^"}.get(t[1])
+        if o:
+            return "((%s %s %s) & %d)" % (a, o, b, m)
+        if t[1] == "shl":
+            return "((%s << %s) & %d)" % (a, b, m)
+        if t[1] == "lshr":
+            return "(%s >> %s)" % (a, b)
+        raise AnalysisBroken("termeval.to_python: op %s" % t[1])
+    if k == "icmp":
+        a, b = to_python(t[2], names), to_python(t[3], names)
+        o = {"eq": "==", "ne": "!=", "ult": "<", "ule": "<=", "ugt": ">", "uge": ">="}.get(t[1])
+        if o is None:
+            raise AnalysisBroken("termeval.to_python: signed comparison")
+        return "(%s %s %s)" % (a, o, b)
+    if k == "not":
+        return "(not %s)" % to_python(t[1], names)
+    raise AnalysisBroken("termeval.to_python: %s" % k)
